@@ -63,6 +63,8 @@ ASSUME Kinds \subseteq AllKinds /\ Greetings \subseteq {"OK", "PREAUTH"} /\ Gree
 ByName == {"STATUS", "GETQUOTA", "GETQUOTAROOT", "GETMETADATA"}
 ArgsOf(k) == CASE k \in ByName \cup {"SELECT"} -> Mailboxes
                [] k = "FETCH" -> {"all", "one"}          \* FETCH 1:*  /  FETCH 1
+               [] k = "LIST" -> {"all", "ref"}           \* LIST "" "*"  /  LIST "A" "%" (reference A, answered with A:
+                                                         \* how a reference combines with the pattern is the server's business)
                [] OTHER -> {None}
 
 FetchClass == {"FETCH", "STORE", "UIDFETCH"}
@@ -239,6 +241,7 @@ List(m) ==
   /\ IF PendingIn(ListClass) # {}
      THEN LET t == Oldest(PendingIn(ListClass)) IN
           /\ RoomFor(t)
+          /\ (cmds[t].kind = "LIST" /\ cmds[t].arg = "ref") => m = "A"
           /\ IF cmds[t].kind = "LIST" THEN AddItem(t, <<"list", 0, m>>)
              \* RETURN (STATUS): the mailbox is held back until its STATUS (or the next LIST) arrives
              ELSE SetAcc(t, [cmds[t].acc EXCEPT !.pendm = m,
